@@ -213,7 +213,7 @@ def t_additionalItems(d, k):
 
 
 def _prop_schema(d, i, required=None):
-    if d == "draft3":
+    if d == "draft3" or required is not None:
         s = {"title": "S%d" % i}
         if required is not None:
             s["required"] = required
@@ -222,7 +222,9 @@ def _prop_schema(d, i, required=None):
 
 
 def t_properties(d, k):
-    variants = [(None, None)] if d != "draft3" else [(None, None), (True, False), (True, True)]
+    # from Draft 4 on `required` inside a property's subschema is that subschema's own keyword (a list of names): `properties` itself
+    # says nothing about a member that is absent
+    variants = [(None, None), (["zz"], ["a", "b"])] if d != "draft3" else [(None, None), (True, False), (True, True)]
     for ra, rb in variants:
         val = {"a": _prop_schema(d, 0, ra), "b": _prop_schema(d, 1, rb)}
         for members in ((), ("a",), ("a", "c"), ("a", "b"), ("c",)):
@@ -452,6 +454,12 @@ def compare(aspect, actual, expected):
         for e in eo:
             if not any(a[2] == e[2] and a[3] == e[3] for a in ao) and ao:
                 return "own error carries path=%s schema_path=%s, expected path=%s schema_path=%s" % (list(ao[0][2]), list(ao[0][3]), list(e[2]), list(e[3]))
+        # an error of the keyword's own is about the instance it was handed: a path or schema path of its own on it (other than the
+        # rows that expect one) points at a place the keyword never looked at -- possibly one that does not exist
+        allowed_own = {(e[2], e[3]) for e in expected if e[0] == "own"} | {((), ())}
+        for a in ao:
+            if (a[2], a[3]) not in allowed_own:
+                return "an error of the keyword's own carries path=%s schema_path=%s; nothing in this row is reported at such a place" % (list(a[2]), list(a[3]))
         return None
     raise ValueError(aspect)
 
